@@ -151,12 +151,19 @@ func (s *storageDeferredCreation) GetAfterAddSeq(ctx context.Context, addSeq uin
 	return nil
 }
 
-func (s *storageDeferredCreation) createStorageAndDoInTx(ctx context.Context, proc func(ctx context.Context) error) error {
+func (s *storageDeferredCreation) createStorageAndDoInTx(ctx context.Context, proc func(ctx context.Context) error) (err error) {
 	tx, err := s.store.WriteTx(ctx)
 	if err != nil {
 		return fmt.Errorf("write tx: %w", err)
 	}
-	defer tx.Rollback()
+	defer func() {
+		_ = tx.Rollback()
+		if err != nil {
+			// nothing was committed: the storage created inside this transaction does not exist,
+			// so the next call has to create it again
+			s.storage = nil
+		}
+	}()
 
 	err = s.createStorage(tx.Context())
 	if err != nil {
